@@ -40,6 +40,7 @@ package acrablock
 //@   ensures err != nil ==> out == nil
 //@   ensures plaintext-is-the-aead-output: err == nil ==> called(SymmetricBackend.Decrypt#1) && ret(SymmetricBackend.Decrypt#1)[1] == nil && sameslice(out, ret(SymmetricBackend.Decrypt#1)[0])
 //@   ensures no-key-no-plaintext: !called(SymmetricBackend.Decrypt#1) ==> err != nil
+//@   loop 0 exit every-key-is-tried: $n == len(keys) || (itercalled(SymmetricBackend.Decrypt#0) && ret(SymmetricBackend.Decrypt#0)[1] == nil)
 //@   at call SymmetricBackend.Decrypt#0 : assert sameslice(arg[1], b[18:18+keyLenOf(b)]) && sameslice(arg[2], context) && exists(j, 0, len(keys), sameslice(arg[0], keys[j]))
 //@   at call SymmetricBackend.Decrypt#1 : assert ret(SymmetricBackend.Decrypt#0)[1] == nil && sameslice(arg[0], ret(SymmetricBackend.Decrypt#0)[0]) && sameslice(arg[1], b[18+keyLenOf(b):]) && sameslice(arg[2], context)
 //@   at call bytes.Equal : assert sameslice(arg[1], b[13:15]) && sameslice(arg[0], ret(Sha256KeyIDGenerator.GenerateKeyID)[0])
